@@ -28,7 +28,7 @@ package moq
 //@   safety C19
 //@   effect fs-read
 //@   ensures{C17,C19} error-means-nil: err != nil ==> m == nil
-//@   ensures{C08,C10,C16} cfg-kept: err == nil ==> m != nil && m.cfg == cfg && m.registry != nil && m.registry.srcPkgTypes != nil
+//@   ensures{C08,C10,C16} cfg-kept: err == nil ==> m != nil && m.cfg == cfg && m.registry != nil && m.registry.srcPkgTypes != nil && wfK(m.registry)
 //@   ensures{C17,C19} registry-error-returned: forallEv(i, evIs(i, "call:registry.New") && evRes(i, 1) != nil ==> err == evRes(i, 1))
 //@   ensures{C10} registry-from-cfg: forallEv(i, evIs(i, "call:registry.New") ==> evArg(i, 0) == cfg.SrcDir && evArg(i, 1) == cfg.PkgName && (err == nil ==> m.registry == evRes(i, 0)))
 
@@ -58,6 +58,7 @@ package moq
 //@   ensures{C16,C17} failure: forallEv(i, evIs(i, "golang.org/x/tools/imports.Process") && evRes(i, 1) != nil ==> err != nil && out == nil && hasPrefix(errMsg(err), "goimports: "))
 //@   ensures success: forallEv(i, evIs(i, "golang.org/x/tools/imports.Process") && evRes(i, 1) == nil ==> err == nil && out == evRes(i, 0))
 
+//@ define wfK(r) = r.imports != nil && forall(string(k), dom(r.imports, k) ==> r.imports[k] != nil && r.imports[k].pkg != nil && uf("registry.stripVendorPath", String, r.imports[k].pkg.Path()) == k && k != r.moqPkgPath)
 //@ define ifaceNameOf(np) = uf("moq.parseInterfaceName#0", String, np)
 //@ define mockNameOf(np) = uf("moq.parseInterfaceName#1", String, np)
 
@@ -66,9 +67,11 @@ package moq
 //@   safety C19
 //@   effect io-write
 //@   modifies H:registry.Package#, H:registry.Var#, H:registry.MethodScope#, M:, A:, H:bytes.Buffer#
-//@   requires m != nil && m.registry != nil && m.registry.srcPkgTypes != nil && w != nil
+//@   requires m != nil && m.registry != nil && m.registry.srcPkgTypes != nil && w != nil && wfK(m.registry)
+//@   loop 1 invariant wf: wfK(m.registry)
 //@   loop 1 invariant idx: rangeIndex >= -1
 //@   loop 1 invariant {C20} names-so-far: forall(k, 0 <= k && k <= rangeIndex ==> mocks[k].InterfaceName == ifaceNameOf(namePairs[k]) && mocks[k].MockName == mockNameOf(namePairs[k]))
+//@   loop 2 invariant wf: wfK(m.registry)
 //@   loop 2 invariant jdx: j >= 0
 //@   ensures{C19} no-names: len(namePairs) == 0 ==> err != nil && errMsg(err) == "must specify one interface" && forallEv(i, !effectful(i))
 //@   ensures{C17,C18} writes-only-w: forallEv(i, evKind(i, "io-write") ==> (evIs(i, "io.Writer.Write") && evArg(i, 0) == w) || (evIs(i, "call:template.Template.Execute") && fresh(evArg(i, 1))))
@@ -98,11 +101,14 @@ package moq
 //@ func moq.Mocker.methodData -> md
 //@   props C02
 //@   safety C19
-//@   modifies H:registry.Package#, M:string:*registry.Package#, H:registry.Var#, H:registry.MethodScope#, A:*registry.Var#, M:string:bool#, A:template.ParamData#
-//@   requires m != nil && m.registry != nil && f != nil && isType(f.Type(), *types.Signature)
+//@   modifies H:registry.Package#, M:string:*registry.Package#, H:registry.Var#, H:registry.MethodScope#.vars, A:*registry.Var#, M:string:bool#, A:template.ParamData#
+//@   requires m != nil && m.registry != nil && f != nil && isType(f.Type(), *types.Signature) && wfK(m.registry)
+//@   ensures wf-kept: wfK(m.registry)
+//@   loop 1 invariant wf: wfK(m.registry)
 //@   loop 1 invariant idx: i >= 0
 //@   loop 1 invariant params-so-far: forall(k, 0 <= k && k < i ==> allocated(params[k].Var) && params[k].Var.vr == sigOf(f).Params().At(k))
 //@   loop 1 invariant variadic-so-far: forall(k, 0 <= k && k < i ==> (params[k].Variadic ==> sigOf(f).Variadic() && k == sigOf(f).Params().Len() - 1))
+//@   loop 2 invariant wf: wfK(m.registry)
 //@   loop 2 invariant idx: i >= 0
 //@   loop 2 invariant results-so-far: forall(k, 0 <= k && k < i ==> allocated(results[k].Var) && results[k].Var.vr == sigOf(f).Results().At(k) && !results[k].Variadic)
 //@   loop 2 invariant params-kept: forall(k, 0 <= k && k < len(params) ==> allocated(params[k].Var) && params[k].Var.vr == sigOf(f).Params().At(k))
@@ -116,8 +122,10 @@ package moq
 //@ func moq.Mocker.typeParams -> tpd
 //@   props C09
 //@   safety C19
-//@   modifies H:registry.Package#, M:string:*registry.Package#, H:registry.Var#, H:registry.MethodScope#, A:*registry.Var#, M:string:bool#, A:template.TypeParamData#
-//@   requires m != nil && m.registry != nil
+//@   modifies H:registry.Package#, M:string:*registry.Package#, H:registry.Var#, H:registry.MethodScope#.vars, A:*registry.Var#, M:string:bool#, A:template.TypeParamData#
+//@   requires m != nil && m.registry != nil && wfK(m.registry)
+//@   ensures wf-kept: wfK(m.registry)
+//@   loop 1 invariant wf: wfK(m.registry)
 //@   loop 1 invariant idx: i >= 0
 //@   loop 1 invariant so-far: forall(k, 0 <= k && k < i ==> allocated(tpd[k].Var) && tpd[k].Var.vr.Name() == tparams.At(k).Obj().Name() && tpd[k].Var.vr.Type() == tparams.At(k).Constraint())
 //@   ensures none: tparams == nil ==> len(tpd) == 0
